@@ -139,13 +139,16 @@ HARNESSES = [
       bounds='template [sig4, seq 81xx, id:<2 bytes>, k:81xx]: all 2^64 fillings, uninterpreted verifier'),
     H('d_min_lite', 'harness', ['C01', 'C02', 'C13', 'C03'], variant='m32', unwind=3, mem_gb=30, timeout=3600, flags=['--no-memory-safety-checks'],
       covers=['decode Ok', 'well-formed but signature rejected'],
-      bounds='template [sig4, seq 81xx, id:<2 bytes>, k:81xx]: all 2^64 fillings, uninterpreted verifier, lean observations'),
-    H('d_gate_300', 'harness', ['C09', 'C02', 'C13', 'C03'], variant='plain', unwind=4, mem_gb=10, timeout=1200,
-      covers=['1000 bytes after the item', 'nothing after the item'],
-      bounds='UNSCALED source (limit 300): a 300-byte item followed by 0..=1000 further bytes'),
-    H('d_gate_301', 'harness', ['C09', 'C02', 'C13', 'C03'], variant='plain', unwind=4, mem_gb=10, timeout=1200,
-      covers=['1000 bytes after the item', 'nothing after the item'],
-      bounds='UNSCALED source (limit 300): a 301-byte item followed by 0..=1000 further bytes'),
+      bounds='template [sig4, seq 81xx, id:<2 bytes>, k:81xx] followed by 0 or 43 arbitrary bytes: all fillings, uninterpreted verifier'),
+    H('d_gate_at', 'harness', ['C09', 'C02', 'C13', 'C03'], variant='m32', unwind=24, mem_gb=10, timeout=1200,
+      covers=['longest suffix', 'nothing after the item'],
+      bounds='scaled limit 32: an item of exactly 32 bytes followed by 0..=27 arbitrary bytes'),
+    H('d_gate_above', 'harness', ['C09', 'C02', 'C13', 'C03'], variant='m32', unwind=24, mem_gb=10, timeout=1200,
+      covers=['longest suffix', 'nothing after the item'],
+      bounds='scaled limit 32: an item of 33 bytes followed by 0..=27 arbitrary bytes'),
+    H('d_gate_small', 'harness', ['C09', 'C02', 'C13', 'C03'], variant='m32', unwind=24, mem_gb=10, timeout=1200,
+      covers=['longest suffix', 'nothing after the item'],
+      bounds='scaled limit 32: an item of 20 bytes followed by 0..=27 arbitrary bytes (buffer up to 47 bytes, longer than the limit)'),
     # ---- family G: key back-end glue, primitive stubbed (C01, C10, C11 fragment) ----------------
     H('g_k256_verify', 'harness-glue', ['C01', 'C03'], variant='plain', unwind=70, mem_gb=10, timeout=1500,
       unwindset=[(r'GenericArray<u8.*GenericSequence<u8>>::generate', 140), (r'block_buffer::BlockBuffer', 140)],
